@@ -1,6 +1,6 @@
 (* C17/Properties.v — the property theorems only.  Each is closed by [exact] of a lemma from
    Proofs.v / Atomic.v / Linearizable.v and followed by Print Assumptions. *)
-From OV Require Import Common.Base C17.Model C17.Proofs C17.Atomic C17.Linearizable.
+From OV Require Import Common.Base C17.Model C17.Proofs C17.Atomic C17.Linearizable C17.E2E.
 
 (* The sharded table (16 association lists selected by shardFor) answers every sequential history
    of Claim/Release/IsOwner/Lookup exactly as ONE flat partial map from tuples to owners does:
@@ -158,6 +158,105 @@ Theorem C17_linearizable :
 Proof. exact table_ops_linearizable. Qed.
 Print Assumptions C17_linearizable.
 
+(* ---- corollaries over CONCURRENT executions (linearizability + the sequential theorems) ---- *)
+
+(* At every reachable configuration of the concurrent system — any number of operations in flight,
+   threads anywhere inside their critical sections — the shared memory is the table produced by
+   some legal sequential history, hence well-formed. *)
+Theorem C17_concurrent_state :
+  forall progs c, t_reach progs c ->
+    exists lin : list t_entry,
+      reg_legal new_registry lin /\
+      let r := fst (reg_run new_registry (map (@e_op op ret) lin)) in
+      reg_wf r /\ forall i, (i < num_shards)%nat -> c_sh c i = nth i r [].
+Proof. exact concurrent_state. Qed.
+Print Assumptions C17_concurrent_state.
+
+(* Single owner at EVERY moment of every concurrent execution: in the shared memory of any reachable
+   configuration a tuple is stored at most once over all shards, in the shard shardFor names, and two
+   sessions that would both pass IsOwner on that memory are the same session. *)
+Theorem C17_concurrent_single_owner :
+  forall progs c, t_reach progs c ->
+    (forall k i j v w, (i < num_shards)%nat -> (j < num_shards)%nat ->
+       In (k, v) (c_sh c i) -> In (k, w) (c_sh c j) ->
+       i = j /\ v = w /\ i = shard_idx k /\ m_get k (c_sh c (shard_idx k)) = Some v) /\
+    (forall k o1 o2 cur1 cur2,
+       m_get k (c_sh c (shard_idx k)) = Some cur1 -> same_id cur1 o1 = true ->
+       m_get k (c_sh c (shard_idx k)) = Some cur2 -> same_id cur2 o2 = true -> same_id o1 o2 = true).
+Proof. exact concurrent_single_owner. Qed.
+Print Assumptions C17_concurrent_single_owner.
+
+(* Every complete concurrent history has a linearization [lin] (Herlihy-Wing conditions) whose
+   entries are exactly the responses observed in the history by all threads, and in which
+   - a claim returns p exactly when p was the owner at that point and is another session
+     (every displacement is reported, and only real ones),
+   - a session is reported as displaced from a tuple twice only if it claimed the tuple again in
+     between (each displacement is reported ONCE, whichever threads made the claims),
+   - after every prefix the table stores each tuple at most once. *)
+Theorem C17_concurrent_reported_once :
+  forall progs c, t_reach progs c -> quiescent c ->
+    exists lin : list t_entry,
+      (forall t, proj t (c_hist c) = proj t (expand lin)) /\
+      reg_legal new_registry lin /\ NoDup (ids lin) /\
+      (forall a r b o, before (ERes a r) (EInv b o) (c_hist c) -> before a b (ids lin)) /\
+      (forall id r, In (ERes id r) (c_hist c) <-> exists o, In ((id, o, r) : t_entry) lin) /\
+      (forall pre e post k o, lin = pre ++ e :: post -> e_op e = OClaim k o ->
+         e_ret e = match lookup (state_after new_registry (pairs pre)) k with
+                   | Some p => if same_id p o then RNil else ROwner p
+                   | None => RNil end) /\
+      (forall pre e1 mid e2 post k o1 p1 o2 p2,
+         lin = pre ++ e1 :: mid ++ e2 :: post ->
+         e_op e1 = OClaim k o1 -> e_ret e1 = ROwner p1 ->
+         e_op e2 = OClaim k o2 -> e_ret e2 = ROwner p2 -> same_id p2 p1 = true ->
+         exists e, In e mid /\ claim_by k p1 (e_op e) = true) /\
+      (forall pre post, lin = pre ++ post -> reg_wf (state_after new_registry (pairs pre))).
+Proof. exact concurrent_reported_once. Qed.
+Print Assumptions C17_concurrent_reported_once.
+
+(* the sequential core of the previous theorem, over observable (operation, result) pairs only *)
+Theorem C17_legal_reported_once :
+  forall pre k o1 p1 mid o2 p2 post,
+    legal_from new_registry (pre ++ (OClaim k o1, ROwner p1) :: mid ++ (OClaim k o2, ROwner p2) :: post) ->
+    same_id p2 p1 = true ->
+    exists ox, In ox mid /\ claim_by k p1 (fst ox) = true.
+Proof. exact legal_reported_once. Qed.
+Print Assumptions C17_legal_reported_once.
+
+(* ---- both components end to end (Model.e2e_step; variant Repaired = with
+        fixes/C17_eviction_kills_new_session.patch) ----
+   Hypothesis no_repadr: no PADR for a tuple while a PPPoE session of that tuple is live (several
+   PPPoE sessions of one host are not a mixed-access matter; handlePADR creates them, see notes).
+   After every DISCOVER / PADR of such a history: every tuple has no session at all, or exactly the
+   sessions of ONE protocol whose newest session is the registry owner; and the session created by
+   the last operation is live and owns its tuple (the newer claim displaces, and survives). *)
+Theorem C17_e2e_newest_survives :
+  forall ops o,
+    no_repadr Repaired world0 (ops ++ [o]) = true ->
+    let w := e2e_run Repaired world0 ops in
+    let w' := e2e_step Repaired w o in
+    (forall k, e2e_snapshot w' k = (0%nat, 0%nat, None) \/
+               e2e_snapshot w' k = (1%nat, 0%nat, Some proto_ipoe) \/
+               (exists n, e2e_snapshot w' k = (0%nat, S n, Some proto_pppoe))) /\
+    match o with
+    | EDiscover k => e2e_snapshot w' k = (1%nat, 0%nat, Some proto_ipoe)
+    | EPadr k => e2e_snapshot w' k = (0%nat, 1%nat, Some proto_pppoe)
+    end.
+Proof. exact e2e_newest_survives. Qed.
+Print Assumptions C17_e2e_newest_survives.
+
+(* /repo HEAD (variant Defective: a terminate event resolves to whatever session sits on the tuple,
+   in the publishing component its own new session): after IPoE-then-PPPoE and after
+   PPPoE-then-IPoE on one tuple NO session is left and the tuple is unowned; the repaired variant
+   keeps the newest.  KNOWN_FINDINGS signature eviction-kills-displacing-session. *)
+Theorem C17_e2e_newest_survives_refuted :
+  e2e_snapshot (e2e_run Defective world0 [EDiscover e2e_k; EPadr e2e_k]) e2e_k = (0%nat, 0%nat, None) /\
+  e2e_snapshot (e2e_run Defective world0 [EPadr e2e_k; EDiscover e2e_k]) e2e_k = (0%nat, 0%nat, None) /\
+  e2e_snapshot (e2e_run Repaired world0 [EDiscover e2e_k; EPadr e2e_k]) e2e_k = (0%nat, 1%nat, Some proto_pppoe) /\
+  e2e_snapshot (e2e_run Repaired world0 [EPadr e2e_k; EDiscover e2e_k]) e2e_k = (1%nat, 0%nat, Some proto_ipoe) /\
+  no_repadr Repaired world0 [EDiscover e2e_k; EPadr e2e_k; EDiscover e2e_k; EPadr e2e_k] = true.
+Proof. exact e2e_defective_witness. Qed.
+Print Assumptions C17_e2e_newest_survives_refuted.
+
 (* ---- non-vacuity ---- *)
 Definition k1 : key := mkKey 100 10 [2; 170; 187; 204; 0; 1]%N.
 Definition k2 : key := mkKey 100 10 [2; 170; 187; 204; 0; 17]%N.     (* same shard as k1 *)
@@ -174,12 +273,28 @@ Example C17_sequential_nonvacuous :
   [RNil; RNil; ROwner oa; RUnit; ROwner ob; RBool false; RBool true; RUnit; RNil; ROwner oa] /\
   fst (tenure_counts new_registry k1
          [OClaim k1 oa; OClaim k2 oa; OClaim k1 ob; ORelease k1 oa; ORelease k1 ob]) = (2, 1, 1)%nat /\
-  snd (component_claim proto_pppoe (fst (reg_run new_registry [OClaim k1 oa])) k1 [115; 50]%N) = [[115; 49]%N].
+  snd (component_claim proto_pppoe (fst (reg_run new_registry [OClaim k1 oa])) k1 [115; 50]%N) = [[115; 49]%N] /\
+  (* hypotheses of C17_displaced_reported_once with a non-empty continuation *)
+  snd (reg_step (fst (reg_run new_registry [OClaim k1 oa])) (OClaim k1 ob)) = ROwner oa /\
+  forallb (fun x => negb (claim_by k1 oa x)) [OClaim k2 oa; OClaim k1 ob; ORelease k1 oa; OLookup k1] = true /\
+  (* hypothesis of C17_legal_reported_once: oa reported twice, it re-claimed in between *)
+  legal_from new_registry ([(OClaim k1 oa, RNil)] ++ (OClaim k1 ob, ROwner oa) ::
+                           [(OLookup k1, ROwner ob); (OClaim k1 oa, ROwner ob)] ++ (OClaim k1 ob, ROwner oa) :: []).
 Proof. vm_compute. repeat split; reflexivity. Qed.
 Print Assumptions C17_sequential_nonvacuous.
 
-(* a reachable quiescent configuration whose history has two overlapping claims on one tuple *)
+(* a reachable quiescent configuration: two overlapping claims on one tuple (the later invoker wins
+   the lock), then two lookups inside the shard's read lock at the same time *)
 Example C17_linearizable_nonvacuous :
   exists c, t_reach ex_progs c /\ quiescent c /\ c_hist c = ex_hist.
 Proof. exact ex_reachable. Qed.
 Print Assumptions C17_linearizable_nonvacuous.
+
+(* a reachable configuration in which a writer holds the shard lock and an invoked writer is blocked *)
+Example C17_blocked_nonvacuous :
+  exists c,
+    t_reach ex_progs c /\ t_st (c_th c 1%nat) = TLocked (OClaim ex_key ex_b) /\
+    t_st (c_th c 0%nat) = TInvoked (OClaim ex_key ex_a) /\
+    ~ can_acquire lock_of op_is_read (c_th c) 0%nat (OClaim ex_key ex_a).
+Proof. exact ex_blocked. Qed.
+Print Assumptions C17_blocked_nonvacuous.
